@@ -16,9 +16,9 @@ import (
 	"strings"
 	"time"
 
-	"verifharness/fb"
 	"net"
 	"sort"
+	"verifharness/fb"
 
 	"verifharness/gen"
 	"verifharness/hv"
